@@ -220,3 +220,71 @@ package edf
 //@   no_safety
 //@   requires state != nil
 //@   ensures [regular_error_text_is_the_bytes_sent] value == nil && !state.decodeType && len(packet) >= 2 && be16(packet[0], packet[1]) <= 32767 && len(packet) >= 2 + int(be16(packet[0], packet[1])) ==> result.2 == nil && result.0 != nil && bytes_eq(errText(rvAny(*result.0)), packet[2:2 + int(be16(packet[0], packet[1]))]) && result.1 == packet[2 + int(be16(packet[0], packet[1])):]
+
+// atoms: a 16-bit field holds either the length of the atom that follows (at most 255) or an
+// atom-cache id (always above 255), so an atom longer than 255 bytes must never be written: the decoder
+// would take its length for a cache id. writeAtom requires it, every encoder that writes a node or a
+// name is checked at the call (and must report ErrAtomTooLong instead).
+// no_safety: the atom mapping and the atom cache hold atoms and ids (A-CACHE).
+//@ func writeAtom
+//@   props C11
+//@   no_safety
+//@   requires b != nil && state != nil
+//@   requires [atom_can_be_told_from_a_cache_id] len(atom) <= 255
+//@   modifies b.B, elems(b.B)
+//@   ensures [plain_atom_is_its_length_in_16_bits] state.options.AtomMapping == nil && state.options.AtomCache == nil ==> len(b.B) == old(len(b.B)) + 2 + len(atom) && int(be16(b.B[old(len(b.B))], b.B[old(len(b.B)) + 1])) == len(atom)
+//@   ensures [then_the_bytes_of_the_atom] state.options.AtomMapping == nil && state.options.AtomCache == nil ==> (forall i int :: 0 <= i && i < len(atom) ==> b.B[old(len(b.B)) + 2 + i] == atom[i])
+//@   ensures [earlier_bytes_kept] len(b.B) >= old(len(b.B)) + 2 && (forall i int :: 0 <= i && i < old(len(b.B)) ==> b.B[i] == old(b.B[i]))
+//@   ensures [same_array_or_a_new_one] ptr(b.B) == old(ptr(b.B)) || fresh(b.B)
+//@ func encodePID
+//@   props C11
+//@   no_safety
+//@   requires b != nil && state != nil
+//@   modifies b.B, elems(b.B)
+//@   ensures [node_too_long_for_the_length_space_is_rejected] (len(rvAny(value).(gen.PID).Node) > 255) == (result == ErrAtomTooLong) && (result == nil || result == ErrAtomTooLong)
+//@   ensures [buffer_only_grows] len(b.B) >= old(len(b.B))
+//@ func encodeProcessID
+//@   props C11
+//@   no_safety
+//@   requires b != nil && state != nil
+//@   modifies b.B, elems(b.B)
+//@   ensures [atom_too_long_for_the_length_space_is_rejected] (len(rvAny(value).(gen.ProcessID).Node) > 255 || len(rvAny(value).(gen.ProcessID).Name) > 255) == (result == ErrAtomTooLong) && (result == nil || result == ErrAtomTooLong)
+//@   ensures [buffer_only_grows] len(b.B) >= old(len(b.B))
+//@ func encodeRef
+//@   props C11
+//@   no_safety
+//@   requires b != nil && state != nil
+//@   modifies b.B, elems(b.B)
+//@   ensures [node_too_long_for_the_length_space_is_rejected] (len(rvAny(value).(gen.Ref).Node) > 255) == (result == ErrAtomTooLong) && (result == nil || result == ErrAtomTooLong)
+//@   ensures [buffer_only_grows] len(b.B) >= old(len(b.B))
+//@ func encodeAlias
+//@   props C11
+//@   no_safety
+//@   requires b != nil && state != nil
+//@   modifies b.B, elems(b.B)
+//@   ensures [node_too_long_for_the_length_space_is_rejected] (len(rvAny(value).(gen.Alias).Node) > 255) == (result == ErrAtomTooLong) && (result == nil || result == ErrAtomTooLong)
+//@   ensures [buffer_only_grows] len(b.B) >= old(len(b.B))
+//@ func encodeEvent
+//@   props C11
+//@   no_safety
+//@   requires b != nil && state != nil
+//@   modifies b.B, elems(b.B)
+//@   ensures [atom_too_long_for_the_length_space_is_rejected] (len(rvAny(value).(gen.Event).Node) > 255 || len(rvAny(value).(gen.Event).Name) > 255) == (result == ErrAtomTooLong) && (result == nil || result == ErrAtomTooLong)
+//@   ensures [buffer_only_grows] len(b.B) >= old(len(b.B))
+//@ func encodeAtom
+//@   props C11
+//@   no_safety
+//@   requires b != nil && state != nil
+//@   modifies b.B, elems(b.B)
+//@   ensures [atom_too_long_for_the_length_space_is_rejected] (len(rvAny(value).(gen.Atom)) > 255) == (result == ErrAtomTooLong) && (result == nil || result == ErrAtomTooLong)
+//@   ensures [earlier_bytes_kept] len(b.B) >= old(len(b.B)) && (forall i int :: 0 <= i && i < old(len(b.B)) ==> b.B[i] == old(b.B[i]))
+
+// time.Time travels as one length byte and the bytes of MarshalBinary, which are 15 or 16 bytes
+// depending on the zone offset: the decoder must accept every length the encoder can write, i.e. leave
+// the judgement to UnmarshalBinary (tmWellFormed, A-TIME) and consume exactly 1 + length bytes.
+//@ func decodeTime
+//@   props C11 C16
+//@   requires state != nil
+//@   ensures [every_well_formed_marshalled_time_is_accepted] value == nil && !state.decodeType && len(packet) >= 1 && len(packet) >= 1 + int(packet[0]) && tmWellFormed(packet[1:1 + int(packet[0])]) ==> result.2 == nil && result.0 != nil && result.1 == packet[1 + int(packet[0]):]
+//@   ensures [every_well_formed_marshalled_time_is_accepted_tagged] value == nil && state.decodeType && len(packet) >= 2 && packet[0] == edtTime && len(packet) >= 2 + int(packet[1]) && tmWellFormed(packet[2:2 + int(packet[1])]) ==> result.2 == nil && result.0 != nil && result.1 == packet[2 + int(packet[1]):]
+//@   ensures [truncated_input_is_an_error] !state.decodeType && (len(packet) < 1 || len(packet) < 1 + int(packet[0])) ==> result.2 != nil
